@@ -3,7 +3,7 @@ from .. import core, gen
 from . import vcdfam, c04
 
 PID = "C06"
-LEVEL = "translation_validation"
+LEVEL = "proof"
 RULE = ("histories with redundant writes (same value in the same step, the next step, after a kind change, across appended "
         "segments) for every order of 2/4/9-state kinds are loaded from VCD text, through the Encoder hook (vcd, raw and real "
         "paths) and through fst::SignalWriter (hook); every observation is passed through the canonical-form monitor: no two "
